@@ -9,7 +9,7 @@ import concurrent.futures, json, os, traceback
 from vlib import common as C, e2e, sysrun as S, split_corr
 
 PROP = "C03"
-THEOREMS = []
+THEOREMS = ["GitAi.Sys.no_invention", "GitAi.Sys.ghost_only_from_agent_edit"]
 SESS = ["s1", "s2"]
 HASH2S = {S.hash_of(s): s for s in SESS}
 
@@ -237,6 +237,8 @@ class Walk:
                     text = lines[ln - 1] if 0 < ln <= len(lines) else None
                     if s is None:
                         continue
+                    if text is not None and norm(text) == "":
+                        continue      # a blank / whitespace-only line carries no content
                     if text is None or norm(text) not in self.wrote[s]:
                         self.fail("note", where, sha, p, ln, text, s)
         # blame of every tracked file at HEAD (only when the file is clean)
@@ -255,6 +257,8 @@ class Walk:
                 s = HASH2S.get(h)
                 text = lines[ln - 1] if 0 < ln <= len(lines) else None
                 if s is None:
+                    continue
+                if text is not None and norm(text) == "":
                     continue
                 if text is None or norm(text) not in self.wrote[s]:
                     self.fail("blame", where, r.head(), p, ln, text, s)
